@@ -38,7 +38,7 @@ impl<T> Sender<T> {
         // Replay the parked messages oldest first so that they keep their order.
         while let Some(value) = self.pending_messages.pop_front() {
             #[cfg(fastrace_verif)]
-            crate::verif::hook(|| crate::verif::Site::BeforePush { free: self.tx.slots(), pending: self.pending_messages.len() + 1 });
+            crate::verif::hook(|| crate::verif::Site::BeforePush { free: self.tx.slots(), pending: self.pending_messages.len() + 1, ring: self.tx.buffer() as *const _ as usize });
             if let Err(PushError::Full(value)) = self.tx.push(value) {
                 self.pending_messages.push_front(value);
                 #[cfg(fastrace_verif)]
@@ -48,7 +48,7 @@ impl<T> Sender<T> {
         }
 
         #[cfg(fastrace_verif)]
-        crate::verif::hook(|| crate::verif::Site::BeforePush { free: self.tx.slots(), pending: 0 });
+        crate::verif::hook(|| crate::verif::Site::BeforePush { free: self.tx.slots(), pending: 0, ring: self.tx.buffer() as *const _ as usize });
         #[cfg(fastrace_verif)]
         crate::verif::hook(|| crate::verif::Site::PushOutcome { ok: !self.tx.is_full() });
         self.tx.push(value).map_err(|_| ChannelFull)
@@ -60,7 +60,7 @@ impl<T> Sender<T> {
         self.pending_messages.push_back(value);
         while let Some(value) = self.pending_messages.pop_front() {
             #[cfg(fastrace_verif)]
-            crate::verif::hook(|| crate::verif::Site::BeforePush { free: self.tx.slots(), pending: self.pending_messages.len() + 1 });
+            crate::verif::hook(|| crate::verif::Site::BeforePush { free: self.tx.slots(), pending: self.pending_messages.len() + 1, ring: self.tx.buffer() as *const _ as usize });
             if let Err(PushError::Full(value)) = self.tx.push(value) {
                 self.pending_messages.push_front(value);
                 break;
@@ -78,6 +78,11 @@ impl<T> Drop for Sender<T> {
 }
 
 impl<T> Receiver<T> {
+    #[cfg(fastrace_verif)]
+    pub(crate) fn ring_id(&self) -> usize {
+        self.rx.buffer() as *const _ as usize
+    }
+
     pub fn try_recv(&mut self) -> Result<Option<T>, ChannelClosed> {
         match self.rx.pop() {
             Ok(val) => Ok(Some(val)),
